@@ -82,7 +82,7 @@ def gen_run(rng, mode, quick):
 def gen_ops(ctx):
     rng = ctx.rng
     quick = ctx.quick()
-    counts = {"d": 1100, "x": 250, "r": 450} if quick else {"d": 30000, "x": 6000, "r": 12000}
+    counts = {"d": 2000, "x": 400, "r": 600} if quick else {"d": 30000, "x": 6000, "r": 12000}
     ops = []
     runs = []
     order = [m for m, c in counts.items() for _ in range(c)]
